@@ -195,7 +195,10 @@ class C18(Prop):
         if req["which"] == "start_row" and "ok" in res:
             try:
                 implrun.helpers.generate_starting_row(max(res["ok"], 4), req["s"])
-                ring_through(PlaceNotationGenerator(max(res["ok"], 4) if res["ok"] <= 16 else 16, "x1", start_row=req["s"]), 2)
+                L = min(res["ok"], 16)
+                # with a method of its own size and with smaller ones (the start row's other bells then cover)
+                for stage in sorted({max(L, 4), max(2, L - 1), max(2, L - 2), min(L, 4) if L >= 2 else 4}):
+                    ring_through(PlaceNotationGenerator(stage, "x1", start_row=req["s"]), 2)
             except Exception as e:  # noqa
                 return f"start row {req['s']!r} was accepted but cannot be rung ({type(e).__name__})"
             want = sorted(gens.BELLS[:len(req["s"])])
